@@ -1,9 +1,13 @@
 package main
 
 import (
+	"bytes"
 	"fmt"
+	"github.com/robfig/soy"
+	"github.com/robfig/soy/soyhtml"
 	"strings"
 	"unicode/utf8"
+	"verif/vrt"
 
 	"github.com/robfig/soy/data"
 )
@@ -249,6 +253,58 @@ func checkC03(c *Ctx) {
 				c.Count("renders", int64(len(vals)))
 				if c.Index()%97 == 0 {
 					c.Sample(map[string]any{"template": f.src(), "values": len(vals), "chain": chainSrc})
+				}
+			}
+		}
+	}
+
+	// Part 1b: one value printed twice in a message under different directive chains, rendered from
+	// the source text and through a translating (identity) bundle: each print keeps its own directives.
+	{
+		mvals := []data.Value{data.String("<"), data.String("&'"), data.String("a\"b"), data.String("x y<z w&v"), data.String("é<"), data.String("a\nb"), data.Int(7)}
+		single := append([]dirSpec{{src: ""}}, dirs...)
+		for _, ns := range []string{"", "false"} {
+			for _, d1 := range single {
+				for _, d2 := range single {
+					if !c.Mine() {
+						continue
+					}
+					src := "{namespace mm" + map[string]string{"": "", "false": " autoescape=\"false\""}[ns] + "}\n/** @param v */\n{template .t}\n{msg desc=\"d\"}[{$v" + d1.src + "}]-({$v" + d2.src + "}){/msg}\n{/template}\n"
+					cs := c03case{Files: map[string]string{"m.soy": src}, Route: "message, same value twice", NS: ns, Chain: d1.src + " / " + d2.src}
+					key := "msgtwice|" + ns + "|" + d1.src + "|" + d2.src
+					var plain, translated []string
+					var cerr error
+					v := vrt.Run(vrt.Options{Fuel: 50000000}, func() {
+						reg, err := soy.NewBundle().AddTemplateString("m.soy", src).Compile()
+						if err != nil {
+							cerr = err
+							return
+						}
+						tofu := soyhtml.NewTofu(reg)
+						idb := identityBundleFor(reg)
+						for _, mv := range mvals {
+							var b1, b2 bytes.Buffer
+							e1 := tofu.NewRenderer("mm.t").Execute(&b1, data.Map{"v": mv})
+							e2 := tofu.NewRenderer("mm.t").WithMessages(idb).Execute(&b2, data.Map{"v": mv})
+							plain = append(plain, b1.String()+errClass(e1))
+							translated = append(translated, b2.String()+errClass(e2))
+						}
+					})
+					if v.Exhausted || v.Panic != nil || cerr != nil {
+						c.Observe(key, "bad")
+						c.Violate("renders", "panic", "bad:msgtwice", cs, "renders", fmt.Sprint(v.Exhausted, v.Panic, cerr))
+						continue
+					}
+					c.Observe(key, strings.Join(plain, "|"))
+					c.Nontrivial()
+					for i := range mvals {
+						val, _ := refStr(mvals[i])
+						cs.Value = fmt.Sprintf("%q", val)
+						if plain[i] != translated[i] {
+							c.Violate("a print in a translated message is escaped exactly as in the source message", "mismatch", "msg-twice:"+d1.src+"/"+d2.src, cs, plain[i], translated[i])
+							break
+						}
+					}
 				}
 			}
 		}
